@@ -11,7 +11,7 @@ from vf import bfs, canon
 from vf.core import Result, CURRENT_CASE
 from models.layers import Forest
 
-from yaql.language import contexts, specs
+from yaql.language import contexts, conventions, specs
 
 ID = 'C17'
 TITLE = 'context forests vs flattened-layers model'
@@ -19,7 +19,8 @@ RULE = ('BFS over all histories of {new root, child, MultiContext([x,y]), Linked
         'delete_function} within the node/operation/depth bounds of each profile, deduplicated by a full snapshot of the real objects; '
         'every transition is judged on all observables of all contexts; a state is non-trivial when the forest contains a multi or linked '
         'context or a child, i.e. more than one layer is involved')
-ASSUMPTIONS = ['values are 1, 2 and null (a variable set to null is defined: it shadows farther layers and is a member/key)',
+ASSUMPTIONS = ['contexts use the CamelCaseConvention; functions are looked up by their registered name and by their python name with use_convention=True',
+               'values are 1, 2 and null (a variable set to null is defined: it shadows farther layers and is a member/key)',
                'delete_function also clears the exclusive mark of that name in the stores it touches (documented code fact, DESIGN A.4)',
                'values are small integers; function overloads are distinguishable zero-argument functions named f']
 BOUNDS = {
@@ -34,10 +35,15 @@ TAGS = ('t0', 't1')
 CREATE = ('root', 'child', 'multi', 'linked')
 
 
+CONV = conventions.CamelCaseConvention()     # the python name f_g is registered - and looked up with use_convention - as fG
+FNAME, PYNAME = 'fG', 'f_g'
+
+
 def _fd(tag):
-    def f():
+    def f_g():
         return tag
-    fd = specs.get_function_definition(f, name='f')
+    fd = specs.get_function_definition(f_g, convention=CONV)
+    assert fd.name == FNAME
     fd.meta = {'tag': tag}
     return fd
 
@@ -60,7 +66,7 @@ def apply_real(w, ev):
     op = ev[0]
     r = w.real
     if op == 'root':
-        r.append(contexts.Context())
+        r.append(contexts.Context(convention=CONV))
     elif op == 'child':
         r.append(r[ev[1]].create_child_context())
     elif op == 'multi':
@@ -141,13 +147,15 @@ def observe_all(w, res):
                 return ('membership ctx=%s' % topo(w, i), 'ctx %d %r in: model %r real %r' % (i, n, m.contains(i, n), n in r))
         if list(r.keys()) != m.keys(i):
             return ('keys ctx=%s' % topo(w, i), 'ctx %d keys: model %r real %r' % (i, m.keys(i), list(r.keys())))
-        fs, ex = r.get_functions('f')
-        got = (sorted(fd.meta['tag'] for fd in fs), bool(ex))
-        if got != m.get_functions(i):
-            return ('get_functions ctx=%s' % topo(w, i), 'ctx %d: model %r real %r' % (i, m.get_functions(i), got))
-        col = [sorted(fd.meta['tag'] for fd in layer) for layer in r.collect_functions('f')]
-        if col != m.collect(i):
-            return ('collect_functions ctx=%s' % topo(w, i), 'ctx %d: model %r real %r' % (i, m.collect(i), col))
+        for lookup, kw in ((FNAME, {}), (PYNAME, {'use_convention': True})):
+            fs, ex = r.get_functions(lookup, **kw)
+            got = (sorted(fd.meta['tag'] for fd in fs), bool(ex))
+            how = 'by-python-name' if kw else 'direct'
+            if got != m.get_functions(i):
+                return ('get_functions ctx=%s lookup=%s' % (topo(w, i), how), 'ctx %d: model %r real %r' % (i, m.get_functions(i), got))
+            col = [sorted(fd.meta['tag'] for fd in layer) for layer in r.collect_functions(lookup, **kw)]
+            if col != m.collect(i):
+                return ('collect_functions ctx=%s lookup=%s' % (topo(w, i), how), 'ctx %d: model %r real %r' % (i, m.collect(i), col))
     return None
 
 
